@@ -1,4 +1,764 @@
-//! C32: not built yet.
-use crate::util::Ctx;
+//! C32 — apollo-smith generates valid documents deterministically.
+//!
+//! Oracle on the implementation (the statement of the repository's `validate` fuzz target): for byte
+//! strings of length 0–8 KiB, `DocumentBuilder::new(..).build()` returns an error or a document whose
+//! text parses without syntax error and passes `to_mixed_validate`; the same bytes give the same text;
+//! operations generated against a parsed schema (`with_document` + `operation_definition`) validate
+//! against that schema.  Every failure is keyed by the class of the diagnostic (names, strings and
+//! numbers removed), so distinct defects are distinct findings.
+//!
+//! Correspondence with the Lean model of the three anchored mechanisms:
+//! * `c32.typename`  — the real `type_name()` (through `with_document`, which preloads the used set from
+//!   a document) on chosen byte strings vs the model of `Unstructured` + `limited_string` + `type_name`;
+//! * `c32.implements` — the real `implements_interfaces()` on interface graphs given as schema text
+//!   (chains, diamonds, cycles, extensions) vs the model's union of closures;
+//! * `c32.closure` / `c32.prune` — the implements lists and the fragment graph of documents produced by
+//!   `build()`, read back from the generated text, vs the model's closure / reachability (after the
+//!   backfill nothing may be missing; pruning is at its fixed point).
+use crate::util::*;
+use apollo_compiler::ast;
+use apollo_compiler::{ExecutableDocument, Schema};
+use apollo_smith::DocumentBuilder;
+use arbitrary::Unstructured;
+use std::collections::{BTreeMap, BTreeSet};
 
-pub fn run(_ctx: &mut Ctx) {}
+// ---------------------------------------------------------------- diagnostic classes
+
+/// names, string contents and digits removed; what is left identifies the rule that fired
+fn class_of(msg: &str) -> String {
+    let mut out = String::new();
+    let mut in_tick = false;
+    let mut in_quote = false;
+    for c in msg.chars() {
+        if c == '`' { in_tick = !in_tick; if !in_tick { out.push('_'); } continue; }
+        if in_tick { continue; }
+        if c == '"' { in_quote = !in_quote; if !in_quote { out.push('_'); } continue; }
+        if in_quote || c.is_ascii_digit() { continue; }
+        out.push(if c.is_ascii_alphanumeric() || c == '_' { c.to_ascii_lowercase() } else { '-' });
+    }
+    let mut slug = String::new();
+    for c in out.chars() {
+        if c == '-' && slug.ends_with('-') { continue; }
+        slug.push(c);
+    }
+    slug.trim_matches('-').chars().take(80).collect()
+}
+
+/// validator rule families: one finding per family of rules rather than per message variant
+fn family(class: &str) -> String {
+    if class.contains("recursion") { "depth-limit".into() }
+    else if class.starts_with("interface-field-_-expects") || class.contains("has-extra-required-argument") { "interface-field-contract".into() }
+    else if class.starts_with("the-required-field-_-is-not-provided") || class.starts_with("the-required-argument-_-is-not-provided") { "required-input-missing".into() }
+    else { class.to_string() }
+}
+
+/// contents of the `…` spans of a diagnostic message
+fn tick_names(msg: &str) -> Vec<String> {
+    msg.split('`').skip(1).step_by(2).map(|s| s.to_string()).collect()
+}
+
+/// deepest nesting of `{`, `[`, `(` in a GraphQL text (string literals skipped)
+fn nesting_depth(text: &str) -> usize {
+    let b = text.as_bytes();
+    let (mut i, mut d, mut max) = (0usize, 0usize, 0usize);
+    while i < b.len() {
+        match b[i] {
+            b'"' => {
+                if b[i..].starts_with(b"\"\"\"") {
+                    i += 3;
+                    while i < b.len() && !b[i..].starts_with(b"\"\"\"") { if b[i] == b'\\' { i += 1; } i += 1; }
+                    i += 2;
+                } else {
+                    i += 1;
+                    while i < b.len() && b[i] != b'"' { if b[i] == b'\\' { i += 1; } i += 1; }
+                }
+            }
+            b'{' | b'[' | b'(' => { d += 1; max = max.max(d); }
+            b'}' | b']' | b')' => { d = d.saturating_sub(1); }
+            _ => {}
+        }
+        i += 1;
+    }
+    max
+}
+
+/// the nesting depth from which the recorded depth-limit defect is the explanation: the generated
+/// documents that hit a recursion limit (parser: 500 steps, about three per selection level;
+/// validator: 100 / 500) all nest at least this deep, valid ones stay far below
+const DEPTH_EXPLAINED_FROM: usize = 90;
+
+/// structural facts of the type-system part of a document that explain the recorded defects
+#[derive(Default)]
+pub struct DocFacts {
+    /// object / interface types that have at least one extension
+    extended_types: BTreeSet<String>,
+    /// (input object, field) declared by an `extend input`
+    extension_input_fields: BTreeSet<(String, String)>,
+    /// some field or argument has a union or custom scalar type
+    has_union_or_custom_scalar: bool,
+}
+
+pub fn doc_facts(doc: &ast::Document) -> DocFacts {
+    let mut f = DocFacts::default();
+    for def in &doc.definitions {
+        match def {
+            ast::Definition::ObjectTypeExtension(d) => { f.extended_types.insert(d.name.to_string()); }
+            ast::Definition::InterfaceTypeExtension(d) => { f.extended_types.insert(d.name.to_string()); }
+            ast::Definition::InputObjectTypeExtension(d) => for fld in &d.fields { f.extension_input_fields.insert((d.name.to_string(), fld.name.to_string())); },
+            ast::Definition::UnionTypeDefinition(_) | ast::Definition::ScalarTypeDefinition(_) => f.has_union_or_custom_scalar = true,
+            _ => {}
+        }
+    }
+    f
+}
+
+/// the finding key of one diagnostic: the rule family when the document shows the structural cause of
+/// the recorded defect of that family, `<family>/unexplained` when it does not (a different defect)
+fn explain(msg: &str, facts: Option<&DocFacts>, depth: usize) -> String {
+    let class = class_of(msg);
+    let fam = family(&class);
+    let ticks = tick_names(msg);
+    let coord_types: Vec<String> = ticks.iter().filter_map(|t| t.split_once('.').map(|(a, _)| a.to_string())).collect();
+    let ok = match fam.as_str() {
+        "depth-limit" => depth >= DEPTH_EXPLAINED_FROM,
+        "required-input-missing" => match facts {
+            // `the required field `T.f` is not provided`: f was added to T by an extension
+            Some(f) => ticks.iter().filter_map(|t| t.split_once('.')).any(|(t, fld)| f.extension_input_fields.contains(&(t.to_string(), fld.trim_end_matches(|c: char| !c.is_ascii_alphanumeric() && c != '_').to_string()))),
+            None => false,
+        },
+        "interface-field-contract" => match facts {
+            // one of the two types named by the diagnostic is extended
+            Some(f) => coord_types.iter().any(|t| f.extended_types.contains(t)),
+            None => false,
+        },
+        _ => return class,
+    };
+    if ok { fam } else { format!("{fam}/unexplained") }
+}
+
+fn explained_keys(msgs: Vec<String>, facts: Option<&DocFacts>, text: &str) -> Vec<String> {
+    let depth = nesting_depth(text);
+    let mut k: Vec<String> = msgs.iter().map(|m| explain(m, facts, depth)).collect();
+    k.sort(); k.dedup();
+    // secondary diagnostic that only accompanies other errors of a single generated operation
+    if k.len() > 1 { k.retain(|c| !c.starts_with("anonymous-operation-cannot-be-selected")); }
+    k
+}
+
+fn bytes_str(b: &[u8]) -> String {
+    b.iter().map(|x| x.to_string()).collect::<Vec<_>>().join(",")
+}
+
+pub enum Outcome {
+    GenErr(String),
+    Panic(String),
+    Syntax(String, Vec<String>),
+    Invalid(String, Vec<String>),
+    Valid(String, ast::Document),
+}
+
+pub fn generate(bytes: &[u8]) -> Result<Result<String, String>, String> {
+    catch(|| {
+        let mut u = Unstructured::new(bytes);
+        DocumentBuilder::new(&mut u).build().map(String::from).map_err(|e| format!("{e:?}"))
+    })
+}
+
+pub fn outcome(bytes: &[u8]) -> Outcome {
+    match generate(bytes) {
+        Err(m) => Outcome::Panic(m),
+        Ok(Err(e)) => Outcome::GenErr(e),
+        Ok(Ok(text)) => match ast::Document::parse(text.clone(), "smith.graphql") {
+            Err(e) => {
+                { let k = explained_keys(e.errors.iter().map(|d| d.error.to_string()).collect(), None, &text); Outcome::Syntax(text, k) }
+            }
+            Ok(doc) => match doc.to_mixed_validate() {
+                Ok(_) => Outcome::Valid(text, doc),
+                Err(errs) => {
+                    { let facts = doc_facts(&doc); let k = explained_keys(errs.iter().map(|d| d.error.to_string()).collect(), Some(&facts), &text); Outcome::Invalid(text, k) }
+                }
+            },
+        },
+    }
+}
+
+/// the failure keys of one input (empty = the property holds on it)
+fn keys_of(bytes: &[u8]) -> Vec<String> {
+    match outcome(bytes) {
+        Outcome::GenErr(_) | Outcome::Valid(..) => vec![],
+        Outcome::Panic(m) => vec![format!("smith-panic:{}", class_of(&m))],
+        Outcome::Syntax(_, k) => k.into_iter().map(|k| format!("smith-syntax:{k}")).collect(),
+        Outcome::Invalid(_, k) => k.into_iter().map(|k| format!("smith-invalid:{k}")).collect(),
+    }
+}
+
+/// delta debugging on the byte string: remove chunks, then lower bytes, while `key` still fails
+fn shrink(bytes: &[u8], key: &str, budget: usize) -> Vec<u8> {
+    let mut cur = bytes.to_vec();
+    let mut tries = 0;
+    let still = |b: &[u8], tries: &mut usize| { *tries += 1; keys_of(b).iter().any(|k| k == key) };
+    let mut chunk = (cur.len() / 2).max(1);
+    while chunk >= 1 && tries < budget {
+        let mut i = 0;
+        let mut progress = false;
+        while i < cur.len() && tries < budget {
+            let mut cand = cur.clone();
+            let end = (i + chunk).min(cand.len());
+            cand.drain(i..end);
+            if still(&cand, &mut tries) { cur = cand; progress = true; } else { i += chunk; }
+        }
+        if !progress { if chunk == 1 { break; } chunk /= 2; }
+    }
+    for i in 0..cur.len() {
+        if tries >= budget { break; }
+        for v in [0u8, 1, 2] {
+            if cur[i] > v {
+                let mut cand = cur.clone();
+                cand[i] = v;
+                if still(&cand, &mut tries) { cur = cand; break; }
+            }
+        }
+    }
+    cur
+}
+
+// ---------------------------------------------------------------- byte strings
+
+pub fn gen_bytes(rng: &mut Rng) -> Vec<u8> {
+    let len = match rng.below(8) { 0 => rng.below(16), 1 => rng.below(256), 2 | 3 => rng.below(2048), _ => rng.below(8193) };
+    let mode = rng.below(9);
+    let pat: Vec<u8> = (0..1 + rng.below(6)).map(|_| rng.next() as u8).collect();
+    let start = rng.next() as u8;
+    let step = rng.next() as u8;
+    let small = 2 + rng.below(6) as u64;
+    (0..len).map(|i| match mode {
+        0 => rng.next() as u8,
+        1 => 0,
+        2 => 0xFF,
+        3 => start.wrapping_add((i as u8).wrapping_mul(step)),
+        4 => pat[i % pat.len()],
+        5 => (rng.next() % small) as u8,
+        6 => if rng.chance(1, 4) { rng.next() as u8 } else { (rng.next() % 3) as u8 },
+        7 => if rng.chance(1, 2) { 0xFF - (rng.next() % 4) as u8 } else { rng.next() as u8 },
+        _ => if rng.chance(1, 16) { rng.next() as u8 } else { pat[i % pat.len()] },
+    }).collect()
+}
+
+// ---------------------------------------------------------------- reading a generated document back
+
+struct TypeDefInfo { name: String, extend: bool, interfaces: Vec<String> }
+
+fn implements_defs(doc: &ast::Document) -> Vec<TypeDefInfo> {
+    let mut out = vec![];
+    let names = |v: &Vec<apollo_compiler::Name>| v.iter().map(|n| n.to_string()).collect::<Vec<_>>();
+    // the builder records interfaces first, then objects; the closure does not depend on that order
+    for pass in 0..2 {
+        for def in &doc.definitions {
+            match def {
+                ast::Definition::InterfaceTypeDefinition(d) if pass == 0 => out.push(TypeDefInfo { name: d.name.to_string(), extend: false, interfaces: names(&d.implements_interfaces) }),
+                ast::Definition::InterfaceTypeExtension(d) if pass == 0 => out.push(TypeDefInfo { name: d.name.to_string(), extend: true, interfaces: names(&d.implements_interfaces) }),
+                ast::Definition::ObjectTypeDefinition(d) if pass == 1 => out.push(TypeDefInfo { name: d.name.to_string(), extend: false, interfaces: names(&d.implements_interfaces) }),
+                ast::Definition::ObjectTypeExtension(d) if pass == 1 => out.push(TypeDefInfo { name: d.name.to_string(), extend: true, interfaces: names(&d.implements_interfaces) }),
+                _ => {}
+            }
+        }
+    }
+    out
+}
+
+fn enc_defs(defs: &[TypeDefInfo]) -> String {
+    defs.iter().map(|d| format!("{}{}:{}", if d.extend { "+" } else { "" }, d.name, d.interfaces.join(","))).collect::<Vec<_>>().join(";")
+}
+
+/// plain depth-first reachability (independent of the model and of petgraph)
+fn reach_from(start: &str, edges: &BTreeMap<String, Vec<String>>) -> BTreeSet<String> {
+    let mut seen = BTreeSet::new();
+    let mut stack = vec![start.to_string()];
+    while let Some(x) = stack.pop() {
+        for y in edges.get(&x).into_iter().flatten() {
+            if seen.insert(y.clone()) { stack.push(y.clone()); }
+        }
+    }
+    seen
+}
+
+fn collect_spreads(sel: &[ast::Selection], out: &mut Vec<String>) {
+    for s in sel {
+        match s {
+            ast::Selection::Field(f) => collect_spreads(&f.selection_set, out),
+            ast::Selection::FragmentSpread(sp) => { let n = sp.fragment_name.to_string(); if !out.contains(&n) { out.push(n); } }
+            ast::Selection::InlineFragment(i) => collect_spreads(&i.selection_set, out),
+        }
+    }
+}
+
+/// correspondence cases + structural oracle on one generated (valid or not) document
+fn structure_checks(ctx: &mut Ctx, bytes: &[u8], doc: &ast::Document) {
+    let input = format!("bytes {}", bytes_str(bytes));
+    // implements: after the backfill every type lists its whole closure
+    let defs = implements_defs(doc);
+    let mut edges: BTreeMap<String, Vec<String>> = BTreeMap::new();
+    let mut declared: BTreeMap<String, BTreeSet<String>> = BTreeMap::new();
+    let mut order: Vec<String> = vec![];
+    for d in &defs {
+        if !order.contains(&d.name) { order.push(d.name.clone()); }
+        edges.entry(d.name.clone()).or_default().extend(d.interfaces.iter().cloned());
+        declared.entry(d.name.clone()).or_default().extend(d.interfaces.iter().cloned());
+    }
+    let mut line = vec![];
+    let mut deep = false;
+    for n in &order {
+        let mut cl = reach_from(n, &edges);
+        if cl.contains(n) { ctx.fail("smith-implements-cycle", &input, &format!("type {n} transitively implements itself")); }
+        cl.remove(n);
+        let missing: Vec<String> = cl.iter().filter(|q| !declared[n].contains(*q)).cloned().collect();
+        if !missing.is_empty() { ctx.fail("smith-implements-not-transitive", &input, &format!("type {n} does not list {} of its implements closure", missing.join(","))); }
+        if cl.len() >= 2 { deep = true; }
+        line.push(format!("{n}:{}:{}", cl.iter().cloned().collect::<Vec<_>>().join(","), missing.join(",")));
+    }
+    ctx.case("c32.closure", &[enc_defs(&defs)], &line.join(";"));
+    if deep { ctx.nontrivial(&format!("closure{}", enc_defs(&defs))); ctx.stat("docs_with_transitive_implements"); }
+
+    // fragments: pruning is at its fixed point, no spread dangles
+    let mut ops: Vec<Vec<String>> = vec![];
+    let mut frags: Vec<(String, Vec<String>)> = vec![];
+    for def in &doc.definitions {
+        match def {
+            ast::Definition::OperationDefinition(o) => { let mut v = vec![]; collect_spreads(&o.selection_set, &mut v); ops.push(v); }
+            ast::Definition::FragmentDefinition(f) => { let mut v = vec![]; collect_spreads(&f.selection_set, &mut v); frags.push((f.name.to_string(), v)); }
+            _ => {}
+        }
+    }
+    let mut fedges: BTreeMap<String, Vec<String>> = BTreeMap::new();
+    for (n, v) in &frags { fedges.entry(n.clone()).or_insert_with(|| v.clone()); }
+    fedges.insert("<ops>".into(), ops.iter().flatten().cloned().collect());
+    let reachable = reach_from("<ops>", &fedges);
+    for (n, v) in &frags {
+        if !reachable.contains(n) { ctx.fail("smith-unused-fragment", &input, &format!("fragment {n} is not reachable from any operation")); }
+        for s in v { if !frags.iter().any(|(m, _)| m == s) { ctx.fail("smith-dangling-spread", &input, &format!("fragment {n} spreads undefined {s}")); } }
+    }
+    for s in ops.iter().flatten() { if !frags.iter().any(|(m, _)| m == s) { ctx.fail("smith-dangling-spread", &input, &format!("an operation spreads undefined {s}")); } }
+    let kept: Vec<String> = frags.iter().filter(|(n, _)| reachable.contains(n)).map(|(n, _)| n.clone()).collect();
+    let out = format!("{}|{}", kept.join(","), reachable.iter().cloned().collect::<Vec<_>>().join(","));
+    let ops_f = ops.iter().map(|v| v.join(",")).collect::<Vec<_>>().join(";");
+    let frags_f = frags.iter().map(|(n, v)| format!("{n}:{}", v.join(","))).collect::<Vec<_>>().join(";");
+    if !frags.is_empty() { ctx.stat("docs_with_fragments"); ctx.nontrivial(&format!("prune{frags_f}")); }
+    if frags.iter().any(|(_, v)| !v.is_empty()) { ctx.stat("docs_with_nested_fragment_spreads"); }
+    ctx.case("c32.prune", &[format!("{ops_f};"), frags_f], &out);
+
+    // names: one namespace for types, one for fragments, one for operations, one for directives
+    let mut types = BTreeSet::new();
+    let mut fr = BTreeSet::new();
+    let mut op = BTreeSet::new();
+    for def in &doc.definitions {
+        let dup = match def {
+            ast::Definition::ScalarTypeDefinition(d) => !types.insert(d.name.to_string()),
+            ast::Definition::ObjectTypeDefinition(d) => !types.insert(d.name.to_string()),
+            ast::Definition::InterfaceTypeDefinition(d) => !types.insert(d.name.to_string()),
+            ast::Definition::UnionTypeDefinition(d) => !types.insert(d.name.to_string()),
+            ast::Definition::EnumTypeDefinition(d) => !types.insert(d.name.to_string()),
+            ast::Definition::InputObjectTypeDefinition(d) => !types.insert(d.name.to_string()),
+            ast::Definition::FragmentDefinition(d) => !fr.insert(d.name.to_string()),
+            ast::Definition::OperationDefinition(d) => d.name.as_ref().is_some_and(|n| !op.insert(n.to_string())),
+            _ => false,
+        };
+        if dup { ctx.fail("smith-duplicate-name", &input, "two definitions of one kind share a name"); }
+    }
+}
+
+// ---------------------------------------------------------------- type_name through the public API
+
+const HEAD: &[u8] = b"ABCDEFGHIJKLMNOPQRSTUVWXYZabcdefghijklmnopqrstuvwxyz";
+const BODY: &[u8] = b"ABCDEFGHIJKLMNOPQRSTUVWXYZabcdefghijklmnopqrstuvwxyz_0123456789";
+
+/// bytes that make `limited_string(30)` spell `s`
+fn spell(s: &str) -> Vec<u8> {
+    let mut v = vec![(s.len() - 1) as u8];
+    for (i, c) in s.bytes().enumerate() {
+        let set = if i == 0 { HEAD } else { BODY };
+        v.push(set.iter().position(|x| *x == c).unwrap_or(0) as u8);
+    }
+    v
+}
+
+fn typename_case(ctx: &mut Ctx, used: &[String], bytes: &[u8], k: usize) {
+    let schema: String = used.iter().map(|n| format!("scalar {n}\n")).collect();
+    let r = catch(|| {
+        let cst = apollo_parser::Parser::new(&schema).parse();
+        let doc = apollo_smith::Document::try_from(cst.document()).map_err(|e| format!("{e:?}"))?;
+        let mut u = Unstructured::new(bytes);
+        let mut b = DocumentBuilder::with_document(&mut u, doc).map_err(|e| format!("{e:?}"))?;
+        let mut out = vec![];
+        for _ in 0..k { out.push(String::from(b.type_name().map_err(|e| format!("{e:?}"))?)); }
+        Ok::<_, String>(out)
+    });
+    let input = format!("used [{}] bytes {} calls {k}", used.join(","), bytes_str(bytes));
+    let out = match r {
+        Err(m) => { ctx.fail(&format!("smith-panic:{}", class_of(&m)), &input, "type_name panicked"); "PANIC".to_string() }
+        Ok(Err(e)) => { ctx.fail("smith-typename-error", &input, &format!("type_name returned {e}")); "ERR".to_string() }
+        Ok(Ok(names)) => {
+            let mut seen: BTreeSet<&str> = used.iter().map(|s| s.as_str()).collect();
+            for n in &names {
+                if !seen.insert(n) { ctx.fail("smith-typename-not-fresh", &input, &format!("type_name returned {n}, which was already used")); }
+                if !spec_name(n) { ctx.fail("smith-typename-not-a-name", &input, &format!("type_name returned {n:?}")); }
+            }
+            if names.iter().any(|n| n.ends_with(|c: char| c.is_ascii_digit())) { ctx.nontrivial(&input); }
+            names.join(",")
+        }
+    };
+    ctx.stat("typename_cases");
+    ctx.case("c32.typename", &[enc(&used.join(",")), bytes_str(bytes), k.to_string()], &out);
+}
+
+fn spec_name(s: &str) -> bool {
+    let mut it = s.chars();
+    matches!(it.next(), Some(c) if c == '_' || c.is_ascii_alphabetic()) && it.all(|c| c == '_' || c.is_ascii_alphanumeric())
+}
+
+fn typename_stream(ctx: &mut Ctx) {
+    let s = |x: &str| x.to_string();
+    // hand-made: suffix probing through gaps, reserved words retried, trailing underscores trimmed
+    let a3: Vec<u8> = [spell("A"), spell("A"), spell("A")].concat();
+    typename_case(ctx, &[], &a3, 3);
+    typename_case(ctx, &[s("A"), s("A0"), s("B")], &a3, 3);
+    typename_case(ctx, &[s("A"), s("A1"), s("A3")], &a3, 4);
+    typename_case(ctx, &[s("A0"), s("A00"), s("A1")], &[spell("A0"), spell("A"), spell("A0")].concat(), 3);
+    typename_case(ctx, &[s("x")], &[spell("on"), spell("type"), spell("x"), spell("Int"), spell("x")].concat(), 2);
+    typename_case(ctx, &[s("ab")], &[spell("ab__"), spell("ab_"), spell("a_b")].concat(), 3);
+    typename_case(ctx, &[], &[], 5);
+    typename_case(ctx, &[s("A"), s("A0"), s("A1"), s("A2"), s("A3"), s("A4"), s("A5"), s("A6"), s("A7"), s("A8"), s("A9"), s("A10")], &[], 4);
+    typename_case(ctx, &[], &[255; 40], 3);
+    let n = if ctx.thorough { 20_000 } else { 2_000 };
+    for _ in 0..n {
+        // a small vocabulary so that bases collide with the used set and with each other
+        let vocab = ["A", "B", "a", "Ab", "A0", "A1", "q_1", "Zz9", "on", "Int", "type", "query", "x_"];
+        let mut used: Vec<String> = vec![];
+        for _ in 0..ctx.rng.below(10) {
+            let base = *ctx.rng.pick(&vocab);
+            let cand = if ctx.rng.chance(1, 2) { base.trim_end_matches('_').to_string() } else { format!("{}{}", base.trim_end_matches('_'), ctx.rng.below(4)) };
+            if spec_name(&cand) && !["on", "Int", "type", "query"].contains(&cand.as_str()) && !used.contains(&cand) { used.push(cand); }
+        }
+        let k = 1 + ctx.rng.below(6);
+        let mut bytes = vec![];
+        for _ in 0..k + ctx.rng.below(3) {
+            match ctx.rng.below(4) {
+                0 => bytes.extend((0..ctx.rng.below(12)).map(|_| ctx.rng.next() as u8)),
+                _ => { let w: &str = *ctx.rng.pick(&vocab); bytes.extend(spell(w.trim_end_matches(|c: char| c == '_').max("A"))) }
+            }
+        }
+        if ctx.rng.chance(1, 6) { bytes.truncate(ctx.rng.below(bytes.len() + 1)); }
+        typename_case(ctx, &used, &bytes, k);
+    }
+}
+
+// ---------------------------------------------------------------- implements_interfaces through the public API
+
+fn implements_case(ctx: &mut Ctx, defs: &[TypeDefInfo], bytes: &[u8]) {
+    let mut schema = String::new();
+    for (i, d) in defs.iter().enumerate() {
+        let imp = if d.interfaces.is_empty() { String::new() } else { format!(" implements {}", d.interfaces.join(" & ")) };
+        if d.extend { schema.push_str(&format!("extend interface {}{imp} {{ g{i}: Int }}\n", d.name)); }
+        else { schema.push_str(&format!("interface {}{imp} {{ f: Int }}\n", d.name)); }
+    }
+    let r = catch(|| {
+        let cst = apollo_parser::Parser::new(&schema).parse();
+        let doc = apollo_smith::Document::try_from(cst.document()).map_err(|e| format!("{e:?}"))?;
+        let mut u = Unstructured::new(bytes);
+        let mut b = DocumentBuilder::with_document(&mut u, doc).map_err(|e| format!("{e:?}"))?;
+        let picked = b.implements_interfaces().map_err(|e| format!("{e:?}"))?;
+        Ok::<_, String>(picked.into_iter().map(String::from).collect::<Vec<String>>())
+    });
+    let input = format!("interfaces {} bytes {}", enc_defs(defs), bytes_str(bytes));
+    let out = match r {
+        Err(m) => { ctx.fail(&format!("smith-panic:{}", class_of(&m)), &input, "implements_interfaces panicked"); "PANIC".to_string() }
+        Ok(Err(_)) => "ERR".to_string(),
+        Ok(Ok(mut picked)) => {
+            // oracle: the pick is closed under the declared `implements` edges
+            let mut edges: BTreeMap<String, Vec<String>> = BTreeMap::new();
+            for d in defs { edges.entry(d.name.clone()).or_default().extend(d.interfaces.iter().cloned()); }
+            for p in &picked {
+                for q in reach_from(p, &edges) {
+                    if !picked.contains(&q) { ctx.fail("smith-implements-not-transitive", &input, &format!("picked {p} but not {q}, which {p} transitively implements")); }
+                }
+            }
+            if picked.len() >= 3 { ctx.nontrivial(&input); }
+            picked.sort();
+            picked.join(",")
+        }
+    };
+    ctx.stat("implements_cases");
+    ctx.case("c32.implements", &[enc_defs(defs), bytes_str(bytes)], &out);
+}
+
+fn implements_stream(ctx: &mut Ctx) {
+    let d = |n: &str, e: bool, p: &[&str]| TypeDefInfo { name: n.to_string(), extend: e, interfaces: p.iter().map(|s| s.to_string()).collect() };
+    let chain = vec![d("Z", false, &[]), d("Y", false, &["Z"]), d("X", false, &["Y"]), d("W", false, &["X"])];
+    let diamond = vec![d("T", false, &[]), d("L", false, &["T"]), d("R", false, &["T"]), d("B", false, &["L", "R"])];
+    let cyc = vec![d("P", false, &["Q"]), d("Q", false, &["P"]), d("S", false, &["P"])];
+    let ext = vec![d("Z", false, &[]), d("Y", false, &[]), d("Y", true, &["Z"]), d("X", false, &["Y"])];
+    for g in [&chain, &diamond, &cyc, &ext] {
+        for b0 in 0..4u8 { for b1 in 0..4u8 { for b2 in 0..4u8 { implements_case(ctx, g, &[b0, b1, b2, b0]); } } }
+        implements_case(ctx, g, &[]);
+    }
+    let n = if ctx.thorough { 20_000 } else { 2_000 };
+    for _ in 0..n {
+        let k = 1 + ctx.rng.below(7);
+        let names: Vec<String> = (0..k).map(|i| format!("I{i}")).collect();
+        let mut defs = vec![];
+        for i in 0..k {
+            // mostly edges to earlier interfaces (a DAG), sometimes any (cycles)
+            let mut ps = vec![];
+            for j in 0..k {
+                if j == i { continue; }
+                let p = if j < i { 3 } else { 12 };
+                if ctx.rng.chance(1, p) { ps.push(names[j].clone()); }
+            }
+            defs.push(TypeDefInfo { name: names[i].clone(), extend: false, interfaces: ps });
+            if ctx.rng.chance(1, 6) {
+                let j = ctx.rng.below(k);
+                if j != i { defs.push(TypeDefInfo { name: names[i].clone(), extend: true, interfaces: vec![names[j].clone()] }); }
+            }
+        }
+        let bytes: Vec<u8> = (0..ctx.rng.below(10)).map(|_| if ctx.rng.chance(1, 3) { ctx.rng.next() as u8 } else { ctx.rng.below(8) as u8 }).collect();
+        implements_case(ctx, &defs, &bytes);
+    }
+}
+
+// ---------------------------------------------------------------- operations against a parsed schema
+
+const SCHEMAS: [&str; 3] = [
+    "schema { query: Query } type Query { id: ID! name: String other: Other list: [Other!]! } type Other { a: Int b: Query }",
+    "schema { query: Q mutation: M subscription: S } interface Node { id: ID! } type Q implements Node { id: ID! node(id: ID!, first: Int = 3): Node u: U e: E }
+     type M { set(input: In!, flag: Boolean): Q } type S { tick: Int q: Q } type A implements Node { id: ID! x: [Int] } union U = A | Q enum E { X Y }
+     input In { a: Int! b: [String!] = [\"x\"] c: In2 } input In2 { z: Float } directive @d(n: Int) on FIELD | QUERY | FRAGMENT_SPREAD | INLINE_FRAGMENT",
+    "schema { query: Root } interface I { i: Int } interface J implements I { i: Int j(x: Float! = 1.5, y: [ID]): String } type Root implements J & I { i: Int j(x: Float! = 1.5, y: [ID]): String k: J r: Root }
+     scalar Date directive @x(a: Date) repeatable on FIELD | QUERY | MUTATION | SUBSCRIPTION",
+];
+
+fn schema_only(doc: &ast::Document) -> String {
+    let mut d = ast::Document::new();
+    for def in &doc.definitions {
+        if !matches!(def, ast::Definition::OperationDefinition(_) | ast::Definition::FragmentDefinition(_)) { d.definitions.push(def.clone()); }
+    }
+    d.to_string()
+}
+
+/// does some input object (transitively) contain itself?  (`input_value_for_type` then never returns)
+fn has_input_cycle(schema: &Schema) -> bool {
+    use apollo_compiler::schema::ExtendedType;
+    let mut edges: BTreeMap<String, Vec<String>> = BTreeMap::new();
+    for (n, t) in &schema.types {
+        if let ExtendedType::InputObject(io) = t {
+            edges.insert(n.to_string(), io.fields.values().map(|f| f.ty.inner_named_type().to_string()).collect());
+        }
+    }
+    edges.keys().any(|n| reach_from(n, &edges).contains(n))
+}
+
+fn operations_against(ctx: &mut Ctx, schema_text: &str, bytes: &[u8], label: &str) {
+    let Ok(schema) = Schema::parse_and_validate(schema_text, "schema.graphql") else { ctx.stat("op_schema_rejected"); return; };
+    if has_input_cycle(&schema) { ctx.stat("op_schema_skipped_recursive_input_object"); return; }
+    let facts = ast::Document::parse(schema_text, "schema.graphql").map(|d| doc_facts(&d)).unwrap_or_default();
+    let r = catch(|| {
+        let cst = apollo_parser::Parser::new(schema_text).parse();
+        let doc = apollo_smith::Document::try_from(cst.document()).map_err(|e| format!("{e:?}"))?;
+        let mut u = Unstructured::new(bytes);
+        let mut b = DocumentBuilder::with_document(&mut u, doc).map_err(|e| format!("{e:?}"))?;
+        let mut ops = vec![];
+        for _ in 0..3 {
+            match b.operation_definition() { Ok(Some(op)) => ops.push(String::from(op)), Ok(None) => {}, Err(e) => return Err(format!("{e:?}")) }
+        }
+        Ok::<_, String>(ops)
+    });
+    let input = format!("operation against {label} bytes {}", bytes_str(bytes));
+    match r {
+        Err(m) => {
+            // the recorded `todo!()` needs a field of union or custom scalar type in the schema
+            let c = class_of(&m);
+            let explained = !c.starts_with("not-yet-implemented") || facts.has_union_or_custom_scalar;
+            ctx.fail(&format!("smith-op-panic:{c}{}", if explained { "" } else { "/unexplained" }), &input, &m.chars().take(160).collect::<String>())
+        }
+        Ok(Err(_)) => ctx.stat("op_gen_err"),
+        Ok(Ok(ops)) => for op in ops {
+            ctx.stat("ops_generated");
+            match ExecutableDocument::parse_and_validate(&schema, &op, "op.graphql") {
+                Ok(_) => ctx.stat("ops_valid"),
+                Err(e) => {
+                    let keys = explained_keys(e.errors.iter().map(|d| d.error.to_string()).collect(), Some(&facts), &op);
+                    for k in keys { ctx.fail(&format!("smith-op-invalid:{k}"), &input, &format!("generated operation is invalid against the schema: {}", op.replace('\n', " ").chars().take(300).collect::<String>())); }
+                }
+            }
+        },
+    }
+}
+
+// ---------------------------------------------------------------- driver
+
+const RECURSIVE_INPUT_SCHEMA: &str = "schema { query: Q } type Q { f(i: In): Int } input In { c: In }";
+
+/// a valid schema with a self-referential (nullable) input object: run in a child process, because the
+/// generator recurses without bound and the stack overflow cannot be caught
+fn recursive_input_probe(ctx: &mut Ctx) {
+    let exe = match std::env::current_exe() { Ok(e) => e, Err(_) => return };
+    let dir = ctx.out_dir.join("child");
+    let out = std::process::Command::new(exe)
+        .args(["C32", "--seed", "1", "--tier", "quick", "--out"]).arg(&dir)
+        .env("VH_C32_CHILD", "recursive-input")
+        .stdout(std::process::Stdio::piped()).stderr(std::process::Stdio::null()).output();
+    ctx.stat("child_probes");
+    match out {
+        Ok(o) if o.status.success() => ctx.stat("recursive_input_probe_ok"),
+        Ok(o) => ctx.fail("smith-op-unbounded-recursion-on-recursive-input-object",
+            &format!("operation against `{RECURSIVE_INPUT_SCHEMA}` bytes 1,1,0,0,0,0"),
+            &format!("the child process died ({:?}): input_value_for_type generates every field of an input object, so `input In {{ c: In }}` recurses until the stack overflows", o.status)),
+        Err(_) => ctx.stat("child_probe_not_started"),
+    }
+}
+
+/// run `outcome` on every input in a child process first: a stack overflow (unbounded recursion in the
+/// generator, the parser or the validator) aborts the process and cannot be caught, so the parent learns
+/// from the child's progress output which input did it, records it and leaves it out
+fn crash_scan(ctx: &mut Ctx, inputs: &[Vec<u8>]) -> (BTreeSet<usize>, usize) {
+    let mut crashed = BTreeSet::new();
+    let Ok(exe) = std::env::current_exe() else { return (crashed, inputs.len()) };
+    let path = ctx.out_dir.join("e2e_inputs.txt");
+    let text: String = inputs.iter().map(|b| bytes_str(b) + "\n").collect();
+    if std::fs::write(&path, text).is_err() { return (crashed, inputs.len()); }
+    let mut start = 0usize;
+    let mut safe_upto = 0usize;
+    for _ in 0..12 {
+        let out = std::process::Command::new(&exe)
+            .args(["C32", "--seed", "1", "--tier", "quick", "--out"]).arg(ctx.out_dir.join("child"))
+            .env("VH_C32_CHILD", format!("scan:{}:{start}", path.display()))
+            .stdout(std::process::Stdio::piped()).stderr(std::process::Stdio::null()).output();
+        ctx.stat("child_scans");
+        let Ok(o) = out else { safe_upto = inputs.len(); break };
+        if o.status.success() { safe_upto = inputs.len(); break; }
+        let last = String::from_utf8_lossy(&o.stdout).lines().last().and_then(|l| l.parse::<usize>().ok());
+        let Some(i) = last else { safe_upto = inputs.len(); break };
+        ctx.fail("smith-crash", &format!("bytes {}", bytes_str(&inputs[i])),
+            &format!("generating / parsing / validating this input killed the process ({:?}): unbounded recursion", o.status));
+        crashed.insert(i);
+        start = i + 1;
+        safe_upto = start;
+    }
+    if safe_upto < inputs.len() { ctx.stat("e2e_truncated_after_repeated_crashes"); }
+    (crashed, safe_upto)
+}
+
+pub fn run(ctx: &mut Ctx) {
+    if let Some(spec) = std::env::var("VH_C32_CHILD").ok().and_then(|v| v.strip_prefix("scan:").map(|s| s.to_string())) {
+        use std::io::Write;
+        let (path, start) = spec.rsplit_once(':').unwrap();
+        let start: usize = start.parse().unwrap();
+        let text = std::fs::read_to_string(path).unwrap();
+        let stdout = std::io::stdout();
+        for (i, line) in text.lines().enumerate().skip(start) {
+            let bytes: Vec<u8> = line.split(',').filter_map(|x| x.parse().ok()).collect();
+            { let mut h = stdout.lock(); writeln!(h, "{i}").unwrap(); h.flush().unwrap(); }
+            let _ = outcome(&bytes);
+        }
+        std::process::exit(0);
+    }
+    if std::env::var("VH_C32_CHILD").as_deref() == Ok("recursive-input") {
+        // every small byte string that selects the field `f` with its argument
+        for b0 in 0..4u8 { for b1 in 0..4u8 {
+            let bytes = [b0, b1, 1, 1, 1, 1, 1, 1];
+            let cst = apollo_parser::Parser::new(RECURSIVE_INPUT_SCHEMA).parse();
+            let doc = apollo_smith::Document::try_from(cst.document()).unwrap();
+            let mut u = Unstructured::new(&bytes);
+            let mut b = DocumentBuilder::with_document(&mut u, doc).unwrap();
+            let _ = b.operation_definition();
+        } }
+        std::process::exit(0);
+    }
+    // developer tool: VH_C32_SHRINK=<key> prints a minimised byte string for that failure key
+    if let Ok(key) = std::env::var("VH_C32_SHRINK") {
+        let mut found = 0;
+        for _ in 0..200_000 {
+            let b = gen_bytes(&mut ctx.rng);
+            if keys_of(&b).iter().any(|k| *k == key) {
+                let m = shrink(&b, &key, 4000);
+                let text = generate(&m).ok().and_then(|r| r.ok()).unwrap_or_default();
+                println!("KEY {key}\nBYTES [{}]\n{text}\n=====", bytes_str(&m));
+                found += 1;
+                if found >= 2 { break; }
+            }
+        }
+        return;
+    }
+
+    let dbg = std::env::var("VH_C32_DEBUG").is_ok();
+    let mark = |what: &str, b: &[u8]| { if dbg { std::fs::write("/work/bD/current.txt", format!("{what} {}", bytes_str(b))).unwrap(); } };
+    typename_stream(ctx);
+    implements_stream(ctx);
+
+    // regression inputs first (minimised failing byte strings of the recorded findings), then generated ones
+    let mut inputs: Vec<Vec<u8>> = REGRESSIONS.iter().map(|b| b.to_vec()).collect();
+    for n in [0usize, 1, 4, 10, 64, 256, 1024, 4096] { inputs.push((0..n).map(|i| i as u8).collect()); }
+    let n = if ctx.thorough { 60_000 } else { 5_000 };
+    for _ in 0..n { inputs.push(gen_bytes(&mut ctx.rng)); }
+    let structure_budget = if ctx.thorough { 6_000 } else { 1_200 };
+    let mut structured = 0;
+    let mut op_runs = 0;
+    let (crashed, safe_upto) = crash_scan(ctx, &inputs);
+    for (idx, bytes) in inputs.iter().enumerate().take(safe_upto) {
+        if crashed.contains(&idx) { continue; }
+        let input = format!("bytes {}", bytes_str(bytes));
+        ctx.stat(&format!("len_{}", match bytes.len() { 0..=15 => "0-15", 16..=255 => "16-255", 256..=2047 => "256-2047", _ => "2048-8192" }));
+        mark("outcome", bytes);
+        let oc = outcome(bytes);
+        mark("after-outcome", bytes);
+        match oc {
+            Outcome::GenErr(e) => ctx.stat(&format!("gen_err:{e}")),
+            Outcome::Panic(m) => ctx.fail(&format!("smith-panic:{}", class_of(&m)), &input, &m.chars().take(200).collect::<String>()),
+            Outcome::Syntax(_, keys) => { ctx.stat("gen_ok"); for k in keys { ctx.fail(&format!("smith-syntax:{k}"), &input, "the generated document does not parse"); } }
+            Outcome::Invalid(text, keys) => {
+                ctx.stat("gen_ok");
+                for k in keys { ctx.fail(&format!("smith-invalid:{k}"), &input, "the generated document does not validate"); }
+                if structured < structure_budget { if let Ok(doc) = ast::Document::parse(text, "smith.graphql") { structured += 1; structure_checks(ctx, bytes, &doc); } }
+            }
+            Outcome::Valid(text, doc) => {
+                ctx.stat("gen_ok"); ctx.stat("valid");
+                // the same bytes give the same document
+                if idx % 4 == 0 {
+                    match generate(bytes) { Ok(Ok(t2)) if t2 == text => ctx.stat("determinism_checks"), _ => ctx.fail("smith-nondeterministic", &input, "a second run on the same bytes produced a different document") }
+                }
+                if structured < structure_budget { structured += 1; structure_checks(ctx, bytes, &doc); }
+                // operations against this document's schema, parsed back from text
+                if op_runs < structure_budget / 2 && idx % 3 == 0 {
+                    op_runs += 1;
+                    let seed_bytes: Vec<u8> = bytes.iter().rev().cloned().collect();
+                    operations_against(ctx, &schema_only(&doc), &seed_bytes, &format!("the schema generated from bytes {}", bytes_str(bytes)));
+                }
+            }
+        }
+    }
+    recursive_input_probe(ctx);
+    // operations against fixed schemas
+    let n_ops = if ctx.thorough { 30_000 } else { 3_000 };
+    for i in 0..n_ops {
+        let mut b = gen_bytes(&mut ctx.rng);
+        b.truncate(600);
+        mark(&format!("fixed-ops {}", i % SCHEMAS.len()), &b);
+        operations_against(ctx, SCHEMAS[i % SCHEMAS.len()], &b, &format!("fixed schema #{}", i % SCHEMAS.len()));
+    }
+}
+
+/// minimised inputs of recorded findings (run first on every run)
+const REGRESSIONS: &[&[u8]] = &[
+    // smith-invalid:_-has-extra-required-argument-_-not-present-in-interface-_
+    &[1,2,4,2,4,2,4,0,1,0,0,0,0,4,4,3,2,0,3,0,0,4,3,3,1,3,4,3,4,2,0,1,4,3,2,3,2,1,1,0,2,3,1,1,4,1,1,1,4,3,2,4,1,2,4,1,4,2,3,0,1,2,0,1,2,3,2,2,2,0,0,2,4,4,4,3,3,1,1,0,3,2,3,4,3,1,2,3,3,4,1,2,4,4,2,3,1,4,4,2,4,0,0,3,2,3,1,3,0,1,3,3,1,3,1,0,2,2,0,0,2,3,1,3,2,1,4,0,0,4,1,2,2,2,2,2,3,0,0,3,0,3,4,0,4,3,2,4,4,3,1,4,0,0,3,4,1,4,4,3,2,3,1,2,1,1,2,2,0,1,1,0,2,2,1,0,2,3,1,3,1,3,2,0,2,4,1,3,0,3,0,3,4,1,4,1,0,0,1,3,2,0,4,2,4,2,0,3,1,3,3,3,4,1,2,4,4,4,3,3,3,0,0,0,4,4,2,4,2,3,3,3,3,0,4,4,4,4,4,3,4,0,3,3,2,0,1,4,1,4,0,4,3,0,4,3,0,4,2,0,4,1,4,4,0,2,4,0,2,0,0,4,2,2,1,1,0,1,3,2,0,2,1,3,1,1,4,0,4,3,1,0,1,3,1,2,4,3,1,4,1,3,4,2,0,0,4,4,3,3,1,4,2,1,1,2,3,1,0,0,2,0,3,1,4,4,4,2,0,3,1,4,0,0,3,3,1,0,1,4,2,4,4,2,2,0,2,3,1,4,4,1,4,2,1,2,4,0,0,0,0,2,3,2,1,1,2,0,4,2,2,2,3,0,3,1,2,3,0,0,1,3,0,0,2,0,1,0,1,2,1,4,1,0,3,0,4,3,3,1,1,4,0,4,1,0,0,1,2,0,4,2,1,4,4,3,1,2,4,3,0,4,4,2,2,1,3,1,3,1,3,1,4,2,3,1,4,1,0,2,2,2,1,4,0,2,2,0,4,0,4,1,1,2,4,4,4,0,0,1,4,0,4,4,1,2,0,2,3,1,4,0,2,1,3,0,4,3,2,0,0,2,2,4,0,2,1,2,2,2,4,3,4,2,2,4,3,0,4,4,3,2,4,2,3,0,0,4,0,3,3,2,3,3,2,1,3,1,1,0,4,3,2,4,0,0,3,1,3,0,1,2,0,4,2,0,1,1,2,4,3,2,4,4,4,4,4,1,1,3,2,2,0,1,0,0,1,2,3,2,0,4,0,2,1,2,3,4,2,1,0,0,2,4,0,3,4,2,0,4,0,1,1,0,4,3,1,4,3,3,4,2,0,0,1,4,1,2,1,1,2,3,3,0,4,4,4,2,2,0,4,4,2,2,0,2,0,1,0,0,4,4,3,4,2,3,1,2,2,2,4,2,1,2,3,2,2,4,1,4,1,3,2,3,4,2,0,1,1,1,0,4,2,4,1,1,4,3,1,3,4,2,4,0,0,0,2,4,1,3,2,4,2,0,2,0,2,1,2,0,1,4,3,4,2,1,4,1,1,4,1,2,3,2,3,4,3,4,1,0,4,2,0,4,4,1,1,3,2,1,4,3,2,3,0,2,0,4,4,3,0,0,4,2,1,2,0,3,1,4,3,3,1,2,1,4,3,2,0,3,3,1,0,3,0,0,2,4,4,1,0,2,4,1,4,4,3,3,3,1,4,1,1,2,1,4,3,2,1,3,4,1,2,2,4,1,0,4,2,1,2,1,2,0,1,1,2,4,3,4,4,1,3,2,1,4,4,2,2,3,4,3,4,2,4,0,2,4,4,2,0,4,1,2,0,1,2,1,0,0,0,3,3,0,0,3,1,3,0,3,4,3,2,3,4,3,3,4,2,1,3,3,0,1,2,3,3,4,3,3,1,0,4,2,3,1,3,4,0,4,3,0,1,4,1,0,3,3,3,3,3,4,3,4,3,3,0,2,1,4,0,4,4,3,1,4,0,1,0,3,3,1,3,3,0,4,0,4,2,0,3,2,2,0,3,3,0,3,3,2,4,1,0,2,1,0,0,2,4,4,4,3,2,4,3,4,4,3,0,0,0,3,4,2,1,0,4,0,2,4,0,1,2,2,0,4,2,4,1,3,3,3,0,2,0,1,1,2,4,3,1,3,0,3,1,0,0,1,0,2,3,0,4,3,0,3,3,4,3,0,4,2,2,3,0,2,1,2,2,3,4,0,4,1,3,1,1,4,4,0,1,4,3,2,4,2,4,2,4,3,2,4,1,3,0,0,2,1,2,0,0,4,3,0,2,2,2,2,2,3,3,0,3,1,2,4,1,0,2,4,2,0,2,1,0,0,4,3,2,2,1,3,1,4,1,4,2,2,2,2,2,2,0,0,0,1,4,4,1,2,3,1,4,2,3,3,2,2],
+    // smith-invalid:interface-field-_-expects-argument-_-but-_-does-not-provide-it
+    &[1,1,1,1,1,1,0,0,1,1,1,1,0,0,1,1,1,0,0,0,1,1,1,1,0,0,1,0,1,1,1,0,1,1,0,1,0,1,0,1,1,0,0,1,0,1,1,1,0,0,1,1,1,1,1,1,0,0,0,1,0,0,0,1,0,0,0,0,1,0,1,0,1,1,1,1,1,0,0,1,0,0,1,1,1,1,1,0,0,0,0,1,1,0,0,0,0,1,1,1,1,0,0,1,0,1,1,1,0,1,1,1,0,0,1,1,0,0,0,1,0,0,0,0,0,0,0,1,1,0,1,1,1,0,1,1,0,0,0,1,0,1,0,0,1,1,1,0,0,1,0,0,0,0,0,1,0,1,1,0,1,1,1,1,1,1,1,0,0,0,0,1,0,0,0,0,1,1,1,1,1,1,1,0,0,1,1,0,1,0,1,0,0,0,0,0,0,1,0,1,0,0,0,0,1,0,1,1,1,0,0,1,0,0,1,1,0,0,1,1,1,1,0,1,1,1,1,1,0,0,1,0,0,1,0,0,0,0,1,0,0,1,1,1,0,1,0,0,1,0,1,1,1,0,1,1,0,1,0,1,0,0,0,1,1,0,0,0,1,0,0,0,1,1,0,0,0,0,0,0,0,0,1,1,0,1,1,1,0,0,1,1,0,0,0,0,1,1,1,1,1,0,1,0,0,1,0,1,1,0,0,1,1,1,0,1,1,1,1,1,1,1,1,1,1,1,0,1,1,1,1,0,1,1,1,1,0,0,1,0,0,0,0,0,0,1,0,0,0,0,0,1,0,1,1,0,0,0,0,0,1,1,0,1,0,1,1,0,0,1,1,1,0,0,1,1,0,1,1,0,0,0,1,0,1,0,0,0,0,0,0,0,0,0,0,1,1,0,1,0],
+    // smith-invalid:interface-field-_-expects-argument-_-of-type-_-but-_-provides-type-_
+    &[4,2,0,3,2,4,3,4,0,4,0,4,3,2,0,3,2,4,1,0,1,4,1,3,3,3,1,3,4,4,1,0,1,3,4,0,0,3,0,0,4,1,1,4,2,0,2,4,4,4,0,1,4,0,0,3,2,4,0,3,0,4,2,3,4,0,3,1,2,4,3,1,3,3,1,2,1,3,2,4,4,0,1,1,2,4,4,4,0,4,3,2,2,0,4,0,4,2,3,3,2,0,2,4,2,4,1,3,4,3,1,4,0,2,1,4,4,4,1,1,2,2,3,1,2,0,4,3,2,2,3,2,4,3,1,3,3,4,2,1,0,1,3,1,0,1,2,0,2,1,2,2,2,2,2,4,3,4,2,1,2,2,2,2,4,3,3,4,0,3,0,2,1,1,3,3,2,2,3,4,1,3,1,0,1,0,1,0,2,0,4,4,0,0,3,3,1,2,3,0,0,1,0,4,4,4,0,0,3,0,3,3,2,4,2,3,4,0,3,1,2,2,4,0,4,4,4,2,2,4,1,4,4,1,2,1,0,2,1,4,4,2,0,4,0,1,3,2,2,3,0,1,3,1,2,2,1,0,4,2,1,3,2,4,2,0,3,2,4,3,0,1,0,0,1,4,2,1,2,4,2,2,0,0,1,0,4,3,3,1,3,2,1,0,2,1,2,1,3,1,0,1,0,4,1,4,0,4,3,3,1,0,1,3,3,4,0,0,4,0,2,2,4,2,1,0,0,0,3,0,3,3,3,4,4,4,3,3,4,4,3,0,3,1,0,0,1,1,0,2,4,0,0,2,1,1,3,4,0,4,3,3,2,4,3,3,4,2,4,0,4,3,2,2,2,2,2,4,2,3,1,0,3,1,4,0,0,2,3,2,3,1,4,2,4,2,2,1,4,3,4,1,0,0,3,0,0,0,4,3,3,1,3,3,2,4,3,2,3,2,4,4,3,1,2,2,1,4,1,0,3,0,3,0,4,0,1,1,4,4,4,3,0,1,2,2,0,0,2,4,3,1,2,2,4,1,0,4,3,1,1,3,1,3,1,3,2,3,0,4,3,0,0,2,1,4,1,4,4,0,0,2,0,1,0,2,2,3,3,3,1,4,2,2,4,4,0,2,1,2,1,1,4,3,0,3,1,1,1,4,0,4,0,1,2,3,4,0,2,0,1,4,2,1,4,3,1,0,3,3,3,4,0,4,1,0,1,3,0,2,2,1,2,0,4,1,0,2,2,4,1,0,0,2,0,0,3],
+    // smith-invalid:interface-field-_-expects-type-_-but-_-of-type-_-is-not-a-proper-subtype
+    &[4,2,0,3,2,4,3,4,0,4,0,4,3,2,0,3,2,4,1,0,1,4,1,3,3,3,1,3,4,4,1,0,1,3,4,0,0,3,0,0,4,1,1,4,2,0,2,4,4,4,0,1,4,0,0,3,2,4,0,3,0,4,2,3,4,0,3,1,2,4,3,1,3,3,1,2,1,3,2,4,4,0,1,1,2,4,4,4,0,4,3,2,2,0,4,0,4,2,3,3,2,0,2,4,2,4,1,3,4,3,1,4,0,2,1,4,4,4,1,1,2,2,3,1,2,0,4,3,2,2,3,2,4,3,1,3,3,4,2,1,0,1,3,1,0,1,2,0,2,1,2,2,2,2,2,4,3,4,2,1,2,2,2,2,4,3,3,4,0,3,0,2,1,1,3,3,2,2,3,4,1,3,1,0,1,0,1,0,2,0,4,4,0,0,3,3,1,2,3,0,0,1,0,4,4,4,0,0,3,0,3,3,2,4,2,3,4,0,3,1,2,2,4,0,4,4,4,2,2,4,1,4,4,1,2,1,0,2,1,4,4,2,0,4,0,1,3,2,2,3,0,1,3,1,2,2,1,0,4,2,1,3,2,4,2,0,3,2,4,3,0,1,0,0,1,4,2,1,2,4,2,2,0,0,1,0,4,3,3,1,3,2,1,0,2,1,2,1,3,1,0,1,0,4,1,4,0,4,3,3,1,0,1,3,3,4,0,0,4,0,2,2,4,2,1,0,0,0,3,0,3,3,3,4,4,4,3,3,4,4,3,0,3,1,0,0,1,1,0,2,4,0,0,2,1,1,3,4,0,4,3,3,2,4,3,3,4,2,4,0,4,3,2,2,2,2,2,4,2,3,1,0,3,1,4,0,0,2,3,2,3,1,4,2,4,2,2,1,4,3,4,1,0,0,3,0,0,0,4,3,3,1,3,3,2,4,3,2,3,2,4,4,3,1,2,2,1,4,1,0,3,0,3,0,4,0,1,1,4,4,4,3,0,1,2,2,0,0,2,4,3,1,2,2,4,1,0,4,3,1,1,3,1,3,1,3,2,3,0,4,3,0,0,2,1,4,1,4,4,0,0,2,0,1,0,2,2,3,3,3,1,4,2,2,4,4,0,2,1,2,1,1,4,3,0,3,1,1,1,4,0,4,0,1,2,3,4,0,2,0,1,4,2,1,4,3,1,0,3,3,3,4,0,4,1,0,1,3,0,2,2,1,2,0,4,1,0,2,2,4,1,0,0,2,0,0,3],
+    // smith-invalid:object-type-_-implements-interface-_-more-than-once
+    &[3,0,2,1,3,0,0,0,0,3,2,0,3,2,1,0,1,2,2,3,3,2,0,0,1,1,1,0,1,1,0,2,1,3,0,2,1,3,2,3,3,3,1,1,2,2,0,3,2,1,0,3,3,2,1,1,3,1,1,1,2,2,0,0,1,3,1,1,3,3,1,2,1,0,2,0,1,2,3,1,3,1,1,0,2,3,1,1,3,3,1,0,0,2,0,1,2,2,2,2,2,2,3,2,0,3,1,2,1,1,1,1,0,0,2,0,1,2,3,1,0,3,3,2,1,0,0,0,1,3,0,0,1,2,2,1,2,3,0,3,2,1,2,2,0,2,3,0,3,2,0,1,3,3,3,0,3,2,3,2,1,0,1,1,1,1,1,2,2,2,0,0,1,3,3,2,3,3,1,3,3,2,0,0,1,3,0,2,1,3,3,2,1,3,2,0,2,2,1,0,2,2,1,3,0,0,0,3,2,1,2,1,1,3,1,3,3,3,2,3,3,1,0,2,3,2,1,0,1,1,3,2,2,2,0,3,0,3,1,3,2,3,1,0,2,1,0,0,2,1,2,1,1,2,3,2,2,0,3,2,3,2,3,1,2,2,0,3,3,2,0,0,0,2,3,0,2,2,1,1,1,2,1,2,2,2,1,1,3,3,2,3,2,1,2,1,3,2,3,2,2,3,2,2,1,1,3,0,0,1,2,0,0,3,0,3,2,3,0,0,1,2,3,1,2,3,0,3,2,0,3,3,3,1,1,0,1,3,2,2,0,3,3,3,0,3,3,2,3,2,0,0,3,1,0,3,1,0,3,0,2,2,0,3,2,1,3,3,0,3,0,3,3,3,0,0,1,2,3,3,1,0,3,1,1,1,1,1,1,3,1,3,1,2,3,3,3,0,0,1,1,0,3,2,3,3,2,2,1,3,2,2,2,0,2,2,2,3,1,0,2,3,2,0,3,3,0,2,2,0,0,3,2,2,0,0,3,1,2,1,2,2,3,3,1,3,0,2,1,1,2,2,1,1,0,2,1,3,2,1,1,3,3,0,1,1,0,3,2,2,2,2,3,1,1,0,0,3,3,1,3,0,2,3,0,1,3,1,3,3,3,1,3,2,0,0,3,2,0,0,1,0,0,0,1,0,1,2,0,3,3,1,1,1,1,1,0,3,3,0,2,1,3,3,1,0,3,0,2,1,2,0,3,3,0,0,0,1,3,2,1,2,3,1,3,0,3,3,3,1,0,0,1,3,0,1,3,3,0,1,0,3,1,2,3,3,0,3,3,3,1,2,2,1,2,3,0,3,3,3,1,2,0,1,3,1,3,2,3,2,1,3,1,2,0,2,0,3,2,1,0,0,1,0,1,0,1,1,0,2,3,2,0,3,0,3,1,2,2,2,0,0,3,0,3,2,0,2,0,1,0,0,2,0,0,3,3,0,0,2,2,1,2,1,2,1,3,2,2,2,1,0,0,2,0,0,3,2,0,0,3,2,2,1,3,3,3,0,0,3,0,3,3,0,0,3,2,0,0,1,1,3,2,1,0,0,0,1,3,2,3,3,2,2,0,0,2,1,1,0,0,0,0,2,0,0,0,2,2,1,0,0,2,0,0,1,2,3,1,1,1,1,1,0,0,2,1,3,0,0,3,2,3,3,1,0,3,1,1,2,0,1,3,1,2,1,1,0,1,3,0,0,0,3,1,3,2,1,1,3,3,2,2,0,3,0,0,3,3,3,3,1,1,1,0,0,1,0,0,3,2,0,0,2,0,0,1,1,1,2,1,1,0,3,3,3,3,0,1,2,1,3,3,1,1,0,1,0,2,0,0,3,3,0,2,3,1,3,2,1,0,0,2,0,2,0,1,2,3,0,0,2,3,1,0,0,0,0,3,3,3],
+    // smith-invalid:the-required-field-_-is-not-provided
+    &[0,1,0,0,1,1,1,0,0,1,1,2,0,2,1,1,2,1,0,0,0,1,0,0,1,2,1,1,2,0,0,1,1,1,2,1,1,0,1,2,1,2,2,2,2,2,2,1,2,0,0,2,2,1,0,1,1,2,0,2,2,0,0,1,1,0,0,2,1,2,0,2,0,0,2,2,0,2,1,0,0,1,0,1,2,0,1,2,2,2,1,1,1,0,1,2,0,1,2,1,2,2,2,1,1,0,0,1,2,1,1,2,0,2,0,0,1,2,2,2,2,2,0,1,2,2,2,1,2,2,2,0,2,1,2,1,0,0,1,1,0,2,1,0,0,0,2,0,0,0,1,1,1,0,2,1,1,1,1,1,2,2,0,0,2,2,2,1,2,1,2,0,0,0,1,0,2,0,2,0,2,2,2,1,2,1,1,0,1,2,1,1,1,0,0,0,1,2,1,2,1,1,0,2,1,2,0,0,2,1,2,0,1,2,2,2,0,1,1,1,1,0,2,1,1,1,1,0,1,0,1,2,0,1,2,1,1,2,2,0,1,0,0,1,2,1,0,0,1,1,0,1,2,1,0,1,1,0,2,0,2,0,2,2,0,0,1,1,2,0,2,0,1,1,1,2,1,2,1,0,2,0,0,2,1,1,0,1,2,1,1,0,2,0,2,0,1,2,2,0,2,1,2,0,2,0,2,2,0,0,1,0,2,0,1,0,0,2,2,0,0,2,1,0,1,2,1,2,1,1,1,1,2,1,0,1,2,1,0,1,0,1,1,0,0,1,2,0,2,1,0,2,0,0,1,1,2,0,1,1,2,1,1,0,2,0,0,0,0,2,0,2,2,1,0,0,2,2,1,1,1,2,0,1,2,1,2,2,0,1,0,0,0,1,2,0,2,1,1,1,2,2,2,2,0,0,1,0,2,0,2,2,2,0,0,0,2,1,2,1,1,2,0,2,2,0,0,0,1,1,0,0,2,1,0,2,1,1,1,2,1,1,1,1,0,0,2,0,0,1,1,1,0,1,0,1,0,0,1,0,2,0,0,1,2,2,1,1,2,0,2,1,0,1,1,2,2,0,0,2,0,0,2,2,1,2,0,0,0,1,0,0,1,1,0,1,0,2,1,2,1,2,2,2,0,0,0,0,0,2,2,2,1,2,2,1,0,1,2,1,2,0,0,2,2,1,1,1,2,1,0,2,1,2,1,1,2,1,0,1,0,0,1,1,0,1,2,1,1,0,2,1,0,2,1,1,1,0,2,2,0,2,2,0,2,1,2,0,1,1,1,2,1,2,2,2,0,2,0,2,2,0,0,2,2,1,2,2,2,1,2,2,2,2,2,1,0,2,1,0,2,2,0,0,2,0,1,0,1,1,0,1,1,0,0,1,0,0,1,2,2,1,2,0,0,0,1,2,1,2,2,0,0,1,1,2,2,2,2,0,0,0,2,2,0,2,2,1,2,0,1,0,2,2,0,0,1,1,2,2,1,1,0,1,2,1,2,0,1,1,0,2,0,1,0,0,2,0,1,2,1,0,0,0,2,2,2,0,2,1,2,0,1,1,0,1,0,2,0,1,1,1,0,1,1,0,1,2,0,1,0,1,1,1,2,1,1,1,1,0,1,1,2,0,1,0,1,2,0,0,1,1,1,1,1,2,0,1,0,1,2,1,2,1,2,2,1,0,2,1,0,2,0,0,1,0,0,2,2,2,2,0,1,1,0,0,0,0,0,1,0,1,2,2,1,1,2,1,1,1,2,0,1,2,0,0,2,2,1,1,2,1,1,2,2,0,0,2,0,1,2,1,1,0,2,1,0,0,1,2,2,1,1,1,0,0,2,0,2,1,0,2,2,0,0,0,1,2,2,0,2,1,1,1,0,0,0,1,0,1,2,1,1,1,0,0,0,2,0,1,2,0,1,2,2,0,1,0,1,1,0,0,0,0,2,1,1,0,1,0,2,2,0,2,1,0,2,1,2,0,1,0],
+    // smith-syntax:parser-recursion-limit-reached
+    &[64,199,250,137,211,64,199,250,137,211,64,199,250,137,211,64,199,250,137,211,64,199,250,137,211,64,199,250,137,211,64,199,250,137,211,64,199,250,137,211,64,199,250,137,211,64,199,250,137,211,64,199,250,137,211,64,199,250,137,211,64,199,250,137,211,64,199,250,137,211,64,199,250,137,211,64,199,250,137,211,64,199,250,137,211,64,199,250,137,211,64,199,250,137,211,64,199,250,137,211,64,199,250,137,211,64,199,250,137,211,64,199,250,137,211,64,199,250,137,211,64,199,250,137,211,64,199,250,137,211,64,199,250,137,211,64,199,250,137,211,64,199,250,137,211,64,199,250,137,211,64,199,250,137,211,64,199,250,137,211,64,199,250,137,211,64,199,250,137,211,64,199,250,137,211,64,199,250,137,211,64,199,250,137,211,64,199,250,137,211,64,199,250,137,211,64,199,250,137,211,64,199,250,137,211,64,199,250,137,211,64,199,250,137,211,64,199,250,137,211,64,199,250,137,211,64,199,250,137,211,64,199,250,137,211,64,199,250,137,211,64,199,250,137,211,64,199,250,137,211,64,199,250,137,211,64,199,250,137,211,64,199,250,137,211,64,199,250,137,211,64,199,250,137,211,64,199,250,137,211,64,199,250,137,211,64,199,250,137,211,64,199,250,137,211,64,199,250,137,211,64,199,250,137,211,64,199,250,137,211,64,199,250,137,211,64,199,250,137,211,64,199,250,137,211,64,199,250,137,211,64,199,250,137,211,64,199,250,137,211,64,199,250,137,211,64,199,250,137,211,64,199,250,137,211,64,199,250,137,211,64,199,250,137,211,64,199,250,137,211,64,199,250,137,211,64,199,250,137,211,64,199,250,137,211,64,199,250,137,211,64,199,250,137,211,64,199,250,137,211,64,199,250,137,211,64,199,250,137,211,64,199,250,137,211,64,199,250,137,211,64,199,250,137,211,64,199,250,137,211,64,199,250,137,211,64,199,250,137,211,64,199,250,137,211,64,199,250,137,211,64,199,250,137,211,64,199,250,137,211,64,199,250,137,211,64,199,250,137,211,64,199,250,137,211,64,199,250,137,211,64,199,250,137,211,64,199,250,137,211,64,199,250,137,211,64,199,250,137,211,64,199,250,137,211,64,199,250,137,211,64,199,250,137,211,64,199,250,137,211,64,199,250,137,211,64,199,250,137,211,64,199,250,137,211,64,199,250,137,211,64,199,250,137,211,64,199,250,137,211,64,199,250,137,211,64,199,250,137,211,64,199,250,137,211,64,199,250,137,211,64,199,250,137,211,64,199,250,137,211,64,199,250,137,211,64,199,250,137,211,64,199,250,137,211,64,199,250,137,211,64,199,250,137,211,64,199,250,137,211,64,199,250,137,211,64,199,250,137,211,64,199,250,137,211,64,199,250,137,211,64,199,250,137,211,64,199,250,137,211,64,199,250,137,211,64,199,250,137,211,64,199,250,137,211,64,199,250,137,211,64,199,250,137,211,64,199,250,137,211,64,199,250,137,211,64,199,250,137,211,64,199,250,137,211,64,199,250,137,211,64,199,250,137,211,64,199,250,137,211,64,199,250,137,211,64,199,250,137,211,64,199,250,137,211,64,199,250,137,211,64,199,250,137,211,64,199,250,137,211,64,199,250,137,211,64,199,250,137,211,64,199,250,137,211,64,199,250,137,211,64,199,250,137,211,64,199,250,137,211,64,199,250,137,211,64,199,250,137,211,64,199,250,137,211,64,199,250,137,211,64,199,250,137,211,64,199,250,137,211,64,199,250,137,211,64,199,250,137,211,64,199,250,137,211,64,199,250,137,211,64,199,250,137,211,64,199,250,137,211,64,199,250,137,211,64,199,250,137,211,64,199,250,137,211,64,199,250,137,211,64,199,250,137,211,64,199,250,137,211,64,199,250,137,211,64,199,250,137,211,64,199,250,137,211,64,199,250,137,211,64,199,250,137,211,64,199,250,137,211,64,199,250,137,211,64,199,250,137,211,64,199,250,137,211,64,199,250,137,211,64,199,250,137,211,64,199,250,137,211,64,199,250,137,211,64,199,250,137,211,64,199,250,137,211,64,199,250,137,211,64,199,250,137,211,64,199,250,137,211,64,199,250,137,211,64,199,250,137,211,64,199,250,137,211,64,199,250,137,211,64,199,250,137,211,64,199,250,137,211,64,199,250,137,211,64,199,250,137,211,64,199,250,137,211,64,199,250,137,211,64,199,250,137,211,64,199,250,137,211,64,199,250,137,211,64,199,250,137,211,64,199,250,137,211,64,199,250,137,211,64,199,250,137,211,64,199,250,137,211,64,199,250,137,211,64,199,250,137,211,64,199,250,137,211,64,199,250,137,211,64,199,250,137,211,64,199,250,137,211,64,199,250,137,211,64,199,250,137,211,64,199,250,137,211,64,199,250,137,211,64,199,250,137,211,64,199,250,137,211,64,199,250,137,211,64,199,250,137,211,64,199,250,137,211,64,199,250,137,211,64,199,250,137,211,64,199,250,137,211,64,199,250,137,211,64,199,250,137,211,64,199,250,137,211,64,199,250,137,211,64,199,250,137,211,64,199,250,137,211,64,199,250,137,211,64,199,250,137,211,64,199,250,137,211,64,199,250,137,211,64,199,250,137,211,64,199,250,137,211,64,199,250,137,211,64,199,250,137,211,64,199,250,137,211,64,199,250,137,211,64,199,250,137,211,64,199,250,137,211,64,199,250,137,211,64,199,250,137,211,64,199,250,137,211,64,199,250,137,211,64,199,250,137,211,64,199,250,137,211,64,199,250,137,211,64,199,250,137,211,64,199,250,137,211,64,199,250,137,211,64,199,250,137,211,64,199,250,137,211,64,199,250,137,211,64,199,250,137,211,64,199,250,137,211,64,199,250,137,211,64,199,250,137,211,64,199,250,137,211,64,199,250,137,211,64,199,250,137,211,64,199,250,137,211,64,199,250,137,211,64,199,250,137,211,64,199,250,137,211,64,199,250,137,211,64,199,250,137,211,64,199,250,137,211,64,199,250,137,211,64,199,250,137,211,64,199,250,137,211,64,199,250,137,211,64,199,250,137,211,64,199,250,137,211,64,199,250,137,211,64,199,250,137,211,64,199,250,137,211,64,199,250,137,211,64,199,250,137,211,64,199,250,137,211,64,199,250,137,211,64,199,250,137,211,64,199,250,137,211,64,199,250,137,211,64,199,250,137,211,64,199,250,137,211,64,199,250,137,211,64,199,250,137,211,64,199,250,137,211,64],
+];
